@@ -21,10 +21,66 @@ def cache_half(out, tier):
     return res
 
 
+def failfast_queue_witness(out, tier):
+    """Fail-fast on the real binary with MORE ready targets than workers: eight independent targets, each logs START, sleeps 0.4 s,
+    logs FAIL and exits 1; `grog build --fail-fast` with num_workers 1 and 2.  Jobs are queued in the pool when the first failure is
+    observed: none of them may start its command afterwards (a queued task must look at the walk's context, not at an outer one).
+    Oracle on the log: no START after the first FAIL (+ a slack of W-1 commands that were already running), exit status non-zero."""
+    import os, json, shutil, subprocess
+    grog = vlib.build_grog()
+    base = os.path.join(vlib.scratch(), "c05ffqueue")
+    shutil.rmtree(base, ignore_errors=True)
+    res = []
+    lates = {}
+    for W in (1, 2):
+        for rep in range(2 if tier == "quick" else 10):
+            d = os.path.join(base, "w%d-%d" % (W, rep))
+            ws, root = os.path.join(d, "ws"), os.path.join(d, "root")
+            os.makedirs(ws); os.makedirs(root)
+            log = os.path.join(d, "events.log")
+            open(log, "w").close()
+            json.dump({"targets": [{"name": "t%d" % k, "command": "echo START t%d >> %s; sleep 0.4; echo FAIL t%d >> %s; exit 1" % (k, log, k, log)}
+                                   for k in range(8)]}, open(os.path.join(ws, "BUILD.json"), "w"))
+            open(os.path.join(ws, "grog.toml"), "w").write("num_workers = %d\n" % W)
+            env = {"PATH": os.environ["PATH"], "GROG_ROOT": root, "HOME": d, "NO_COLOR": "1"}
+            try:
+                p = subprocess.run([grog, "build", "--fail-fast"], cwd=ws, env=env, stdin=subprocess.DEVNULL, stdout=subprocess.PIPE,
+                                   stderr=subprocess.PIPE, text=True, timeout=60)
+                rc = p.returncode
+            except subprocess.TimeoutExpired:
+                rc = "hang"
+            import time
+            time.sleep(0.6)          # a command started late would still be logging
+            evs = [l.strip() for l in open(log) if l.strip()]
+            first_fail = next((i for i, e in enumerate(evs) if e.startswith("FAIL")), None)
+            late = [e for e in evs[first_fail + 1:] if e.startswith("START")] if first_fail is not None else []
+            desc = {"workspace": "8 independent targets: echo START; sleep 0.4; echo FAIL; exit 1", "num_workers": W, "flags": "--fail-fast",
+                    "exit": rc, "events": evs}
+            res.append({"num_workers": W, "exit": rc, "starts": sum(e.startswith("START") for e in evs), "starts_after_first_failure": len(late)})
+            if rc == "hang":
+                out.violation("`grog build --fail-fast` does not return within 60 s (8 failing targets, num_workers=%d)" % W, desc)
+                return res
+            if rc == 0:
+                out.violation("`grog build --fail-fast` exits 0 although every target fails (num_workers=%d)" % W, desc)
+                return res
+            if late:
+                lates.setdefault(W, []).append((late, desc))
+        # (between the moment a command's shell logs FAIL and the moment grog has observed the failure a free worker may pick one more
+        # job: a late start in ONE repetition is tolerated, late starts in every repetition of a worker count are not)
+        if len(lates.get(W, [])) == (2 if tier == "quick" else 10):
+            late, desc = lates[W][0]
+            out.violation("fail-fast: %d command(s) STARTED after the first failure had been logged (num_workers=%d, 8 ready targets, in every "
+                          "one of %d repetitions): %s" % (len(late), W, len(lates[W]), late), desc)
+            return res
+    shutil.rmtree(base, ignore_errors=True)
+    return res
+
+
 def run(out, tier):
     info, scheds, extra = walkerlib.gated_campaign(out, "C05", tier, "fail")
     sinfo = walkerlib.stress_campaign(out, "C05", tier, "fail", race=False)
     e2e = cache_half(out, tier)
+    e2e["failfast_queue_witness"] = failfast_queue_witness(out, tier)
     samples = []
     for s in scheds[:400:150]:
         tr = extra.get("traces", {}).get(s["id"])
@@ -49,4 +105,10 @@ def run(out, tier):
 
 
 def replay(out, path):
+    import json
+    rp = json.load(open(path))["replay"]
+    if "events" in rp and "workspace" in rp:
+        print(json.dumps(rp, indent=1)[:3000])
+        print("re-run:", json.dumps(failfast_queue_witness(out, "quick")))
+        return
     walkerlib.replay(out, "C05", path)
